@@ -44,6 +44,16 @@ def runLog (f : K) : K × K → List K → List K
   | _, [] => []
   | st, t :: ts => (logNext f st t).2 :: runLog f (logNext f st t) ts
 
+/-- state after a list of `next` calls -/
+def logFinal (f : K) : K × K → List K → K × K
+  | st, [] => st
+  | st, t :: ts => logFinal f (logNext f st t) ts
+
+/-- `initialize` on a logarithmic schedule that was used before (a tracker reused for a second run): the inherited
+`ConstantInterrupts.initialize` only sets `_t_next` anew - the period `dt`, grown during the earlier run, is KEPT
+(the code that exists; the schedule of the second run starts with the grown period) -/
+def logReinit (tStart : Option K) (st : K × K) (t : K) : K × K := (st.1, constInit tStart t)
+
 /-- `FixedInterrupts.next` on a list: `idx` is the value of `_index + 1` *before* the call
 (number of entries consumed so far).  Returns the new count and the answer
 (`none` = `math.inf`).  The `while t_next < t` loop is the `dropWhile`. -/
